@@ -302,7 +302,7 @@ var hostile = []string{
 	"con.txt", "x.", "x", " x", "X", "../../etc/passwd", "..\\..\\x", "C:\\Windows\\x", "C:x", "/etc/passwd", "\x00",
 	"a\x00b", "x\ny", "x_y", "x\x01\x02y", "./x", "x/.", ".x", "..x", "x..", "\u202ex", "x\u2215y", "\xff", "\ufffd",
 	"\xc0\xaf", "nul", "_nul", "NUL.", "a:b", "a_b_", "a/b/", "...", " ", "x/../y", "y", "//x//", "x\\", "~", "-rf",
-	"\u00a0x\u00a0", "x\u0085", "x_", "x*", "x?", "*", "com1.txt.", "lpt9", "\u0131", "file.pdf", "FILE.PDF",
+	"\u00a0x\u00a0", "x\u0085", "x_", "x*", "x?", "*", "com1.txt.", "lpt9", "\u0131", "file.pdf", "FILE.PDF", "../escaped", "x/../../escaped2", "..\\escaped3", "./../escaped",
 }
 
 func pickNames(n int) []string {
@@ -492,7 +492,7 @@ func writeAttachmentCases() {
 		in := map[string]any{"fn": "writeAttachments", "names_hex": hexList(names)}
 		status, inside := checkExtraction("attachment", in, jail, out, contents, err)
 		if status == "error" {
-			status = "error:" + err.Error()
+			status = "error:" + vh.Hex([]byte(err.Error()))
 		}
 		// the model gets the same out directory; it answers with the final set of paths
 		r.Case("writeAttachments", []string{vh.Hex([]byte(out)), hexList(names)}, status+":"+hexList(inside))
@@ -560,7 +560,7 @@ func endToEnd() {
 		}
 		status, inside := checkExtraction("extract-attachments", in, jail, out, contents, err)
 		if status == "error" {
-			status = "error:" + err.Error()
+			status = "error:" + vh.Hex([]byte(err.Error()))
 		}
 		r.Case("writeAttachments", []string{vh.Hex([]byte(out)), hexList(seenNames)}, status+":"+hexList(inside))
 		r.Count("class:e2e-" + strings.SplitN(status, ":", 2)[0])
@@ -598,7 +598,7 @@ func writerCases() {
 		if err == nil && len(inside) == 1 {
 			res = vh.Hex([]byte(filepath.Base(inside[0])))
 		} else if err != nil {
-			res = "error:" + err.Error()
+			res = "error:" + vh.Hex([]byte(err.Error()))
 		}
 		if isFont {
 			r.Case("fontFileName", []string{vh.Hex([]byte(nn[0])), vh.Hex([]byte(nn[1])), vh.Hex([]byte(nn[2]))}, res)
